@@ -1257,6 +1257,24 @@ def _do_call(im, host, call, maps):
                     break
                 got.append(n)
             return 'names ' + repr(got)
+        if kind == 'names2':
+            # one list_names call consumed in two steps; in between, the caller's oldest abandoned generator is discarded (closed, as
+            # garbage collection would do at some arbitrary moment).  No other call on the parser happens in between.
+            it = iter(im.p.list_names(call[1]))
+            got = []
+            for _ in range(int(call[2])):
+                try:
+                    got.append(next(it))
+                except StopIteration:
+                    break
+            kept = im.__dict__.setdefault('_kept_iterators', [])
+            if kept:
+                old = kept.pop(0)
+                if call[3] == 'close':
+                    old.close()
+                del old
+            got += list(it)
+            return 'names ' + repr(got)
         if kind == 'eval':
             names = None if call[2] == 'none' else maps[call[2]]
             kw = {} if call[3] == 'default' else {'max_ops_evaluated': int(call[3])}
